@@ -334,12 +334,21 @@ fn history<K: HKey>(s: &mut Sess, rng: &mut Rng, w: &Weights, prop: &'static str
         c.map.insert(K::dec(&kb).unwrap(), bytes);
         c.s.out.count("put.size-sweep-2^k");
         c.observe(true);
+        // the same length once more, under another key, as a short header followed by ONE big
+        // write call (bytes still in the write buffer when a large chunk arrives)
+        let kb2 = c.key();
+        let spec2 = format!("=a1b2c3,~2:{}", len.saturating_sub(3).max(1));
+        let bytes2: Vec<u8> = chunks_of(&spec2).concat();
+        c.expect(&format!("put {} {}", hx(&kb2), spec2), "ok");
+        c.map.insert(K::dec(&kb2).unwrap(), bytes2);
+        c.s.out.count("put.size-sweep-header+big");
+        c.observe(true);
     }
     // Count thresholds are invisible to histories over five keys: once in a while a history over
     // MANY keys (a range removal whose record outgrows the 8 KiB write buffer, hundreds of versions,
     // two- and three-digit segment ids with n = 3 / 64)
     if case % 20 == 7 && prop != "C13" {
-        let target = c.rng.range(300, 700) as usize;
+        let target = if c.rng.chance(1, 4) { c.rng.range(1030, 1300) as usize } else { c.rng.range(300, 700) as usize };
         let mut more: BTreeSet<Vec<u8>> = c.keys.iter().cloned().collect();
         let mut tries = 0;
         while more.len() < target && tries < 20_000 {
@@ -360,6 +369,18 @@ fn history<K: HKey>(s: &mut Sess, rng: &mut Rng, w: &Weights, prop: &'static str
         }
         c.s.out.count("history.many-keys");
         c.observe(true);
+        // half of them: ONE range removal over everything (a record naming hundreds or more than a
+        // thousand keys), a restart that has to replay it, and the keys put back
+        if c.rng.chance(1, 2) {
+            let n = c.map.len();
+            c.map.clear();
+            c.expect("rrange * *", &n.to_string());
+            c.expect("close", "ok");
+            let r = c.op("open");
+            if !r.starts_with("ok orphans=0 missing=0 corrupted=0 staging=0") { c.fail(format!("C02: reopen after a range removal over {n} keys reported `{r}`")); }
+            c.observe(true);
+            c.s.out.count("history.many-keys-removed-at-once");
+        }
     }
     // Size thresholds of RECORDS hide behind key lengths (a put's record is its key + 45 bytes): a
     // swept, not drawn, list of key lengths around the write buffer (8 KiB), 64 KiB, 128 KiB and —
